@@ -86,6 +86,16 @@ CLAIMED = {
         ref='DESIGN.md §6 C08', note='The global preservation theorem (congruence through every operator, closure bodies) is not proved; it is covered by the with/without '
              'differential on implementation and model. The float case of the * rule rests on IEEE 1*x = x (stated for integers only).',
         technique='Lean 4 proof (per-rewrite soundness for every sub-evaluator) + with/without-pass differential'),
+    'C06': dict(
+        text='Operator-level laws of the model evaluator, each against an arbitrary evaluator of the sub-terms: evalList_seq / evalList_length '
+             '(operands left to right, each exactly once, state threaded), fn_captures_definition_env, call_frame (body runs in a fresh frame '
+             'under the captured environment; arguments evaluated first, in the caller), call_env_restored, let_sequential, let_vanishes, '
+             'define_current_frame, set_nearest, bound_reads, and the four error laws (unbound_errors, set_undefined_errors, redefine_errors, '
+             'arity_errors). Correspondence: generated core-calculus programs through the full pipeline (Wal.eval) and the bare evaluator vs the '
+             'model; search oracle = an independent textbook reference evaluator (harness/gen_prog.py::Ref): result, stdout, final globals per form.',
+        ref='DESIGN.md §6 C06', note='The reference evaluator and the Lean model are two independent renderings of lexical scoping; the global statement (all programs) is by '
+             'differential execution, the theorems are local laws. First-class macros at run time are outside the model (unsupported).',
+        technique='Lean 4 proof (operator-level binding/order/error laws) + differential against model and reference evaluator'),
 }
 
 REASONS_PENDING = 'check under construction in this round (DESIGN.md §13 build order); not a claim of inapplicability'
